@@ -39,6 +39,21 @@ pub mod verif {
     type Gate = Box<dyn FnMut(&str, &ckb_types::packed::Byte32) + Send>;
     static GATE: Mutex<Option<Gate>> = Mutex::new(None);
 
+    /// the proposal ids reported as dropped by the last tip change (what the tx-pool is told)
+    static LAST_DETACHED_PROPOSALS: Mutex<Option<Vec<ckb_types::packed::ProposalShortId>>> =
+        Mutex::new(None);
+
+    pub(crate) fn record_detached_proposals(
+        ids: &std::collections::HashSet<ckb_types::packed::ProposalShortId>,
+    ) {
+        *LAST_DETACHED_PROPOSALS.lock().expect("lock") = Some(ids.iter().cloned().collect());
+    }
+
+    /// Takes the ids recorded by the last tip change (None if no tip change happened since)
+    pub fn take_detached_proposals() -> Option<Vec<ckb_types::packed::ProposalShortId>> {
+        LAST_DETACHED_PROPOSALS.lock().expect("lock").take()
+    }
+
     /// Install (or remove) the gate
     pub fn set_gate(gate: Option<Gate>) {
         *GATE.lock().expect("lock") = gate;
